@@ -12,7 +12,7 @@ from . import sym, extract
 from .sym import SVal, SInt, SBool, SOpt, SEnum, SSeq, Unsupported, _ie, _be, is_sym, merge
 from .spec import SSet, SpecFn, empty_set
 from .engine import (PyLong, STupleSeq, HRefTable, Engine, ReturnEx, BreakEx, ContinueEx, PathEnd, PyRaise, Opaque, HList, HSetList, HSymList,
-                     HIter, HMap, HFile, SObj, Closure, BoundMethod, Frame, Loop, Contract, call_by_names, conjuncts, MISSING, ConstFn, SUnion, HEnum, MethodOf, SuperProxy)
+                     HIter, HMap, HFile, SObj, Closure, BoundMethod, Frame, Loop, Contract, call_by_names, conjuncts, MISSING, ConstFn, SUnion, HEnum, MethodOf, SuperProxy, SChars, HSink)
 
 
 def exc_matches(exc_type, handler_type):
@@ -119,6 +119,11 @@ class Interp(Engine):
             return HFile(v.seq, v._pos)
         if isinstance(v, HIter):
             return HIter(v.seq, v._pos)
+        if isinstance(v, SObj):
+            c = SObj()
+            for k2, v2 in v.__dict__["_f"].items():
+                c.__dict__["_f"][k2] = self.replay_copy(v2) if isinstance(v2, (HFile, HIter)) else v2
+            return c
         return v
 
     def snapshot(self, v):
@@ -129,6 +134,9 @@ class Interp(Engine):
             c = SObj()
             c.__dict__["_f"].update(v.__dict__["_f"])
             # entry values of the mutable parts most contracts talk about
+            for k2, v2 in list(v.__dict__["_f"].items()):
+                if isinstance(v2, HSink):
+                    c.__dict__["_f"]["out"] = v2.out
             fp = v.__dict__["_f"].get("fp")
             if isinstance(fp, HFile):
                 c.__dict__["_f"]["pos"] = fp.pos
@@ -142,6 +150,8 @@ class Interp(Engine):
             return SObj(set=v.sset)
         if isinstance(v, HSymList):
             return v.as_seq()
+        if isinstance(v, HSink):
+            return SObj(out=v.out)
         return v
 
     def covers_path(self):
@@ -529,13 +539,15 @@ class Interp(Engine):
             p = z3.Int(self.fresh(name + "!pos"))
             self.run.pc.append(z3.And(p >= 0, p <= obj.seq.len_e()))
             obj._pos = SInt(p)
+        elif isinstance(obj, HSink):
+            obj.seq = z3.Const(self.fresh(name + "!out"), z3.SeqSort(z3.IntSort()))
         elif isinstance(obj, HRefTable):
             g = z3.Int(self.fresh(name + "!extra"))
             self.run.pc.append(g >= _ie(obj.extra))
             obj.extra = g
         elif isinstance(obj, SObj):
             for k2, v2 in list(obj.__dict__["_f"].items()):
-                if isinstance(v2, (HFile, HRefTable, HIter, HSymList, HSetList)):
+                if isinstance(v2, (HFile, HRefTable, HIter, HSymList, HSetList, HSink)):
                     self.havoc_heap(v2, "%s.%s" % (name, k2), mutated)
         elif isinstance(obj, HList):
             if mutated:
@@ -562,7 +574,7 @@ class Interp(Engine):
                 obj = f.lookup(nm)
             except PyRaise:
                 continue
-            if isinstance(obj, (HSetList, HSymList, HIter, HList, HFile, HRefTable, SObj)) and id(obj) not in seen:
+            if isinstance(obj, (HSetList, HSymList, HIter, HList, HFile, HRefTable, SObj, HSink)) and id(obj) not in seen:
                 seen.add(id(obj))
                 if nm in mutated_names:
                     self.havoc_heap(obj, nm, True)
@@ -909,7 +921,7 @@ class Interp(Engine):
             cls = base.obj.__dict__["_f"].get("__class__")
             mro = list(cls.__mro__)
             return self.class_attr(base.obj, cls, mro[mro.index(base.after) + 1:], name, node)
-        if isinstance(base, (HList, HSymList, HSetList, HIter, HMap, SSeq, SSet, BinStr, HFile, HRefTable)):
+        if isinstance(base, (HList, HSymList, HSetList, HIter, HMap, SSeq, SSet, BinStr, HFile, HRefTable, HSink)):
             return BoundMethod(base, name)
         if isinstance(base, SEnum):
             return base.map(lambda t: getattr(t, name)).collapse()
@@ -1210,6 +1222,9 @@ class Interp(Engine):
             return fn(*args)
         if isinstance(fn, ConstFn):
             return fn.value
+        if isinstance(fn, HSink):
+            fn.put(args[0], self, node)
+            return None
         if isinstance(fn, SEnum) and not kwargs and not any(_deep_sym(a) for a in args) and all(
                 isinstance(t, types.BuiltinFunctionType) and isinstance(getattr(t, "__self__", None), (str, bytes, int, tuple, frozenset)) for t in fn.table):
             # the same method of an immutable builtin value for every table entry: evaluate entry-wise
@@ -1462,12 +1477,28 @@ class Interp(Engine):
                 self.run.pc.append(h)
         if c.effect is not None:
             c.effect(self, vals, result, None)
+        else:
+            # default frame: byte sinks reachable from the arguments may have been written to
+            for k, v in vals.items():
+                if isinstance(v, HSink):
+                    self.havoc_heap(v, k, True)
+                elif isinstance(v, SObj):
+                    for k2, v2 in list(v.__dict__["_f"].items()):
+                        if isinstance(v2, HSink):
+                            self.havoc_heap(v2, "%s.%s" % (k, k2), True)
         avail["result"] = result
         for k, v in vals.items():
             avail[k] = v
         if c.ensures is not None:
+            before = len(self.run.pc)
             for _, e in conjuncts(call_by_names(c.ensures, avail)):
                 self.run.pc.append(e)
+            # vacuity guard: an assumed postcondition that contradicts the path (e.g. a callee's effect on the heap
+            # that the call site did not havoc) would make every later obligation on this path trivially true
+            if len(self.run.pc) > before and not self.feasible(self.run.pc):
+                if self.feasible(self.run.pc[:before]):
+                    raise Unsupported("the assumed postcondition of %s contradicts the state at the call site (line %d): "
+                                      "missing frame/effect in the callee's contract" % (c.qualname, ln))
         return result
 
     def file_method(self, fp, name, args, node):
@@ -1573,6 +1604,18 @@ class Interp(Engine):
             return getattr(dict, name)(recv, *args, **kwargs)
         if isinstance(recv, HFile):
             return self.file_method(recv, name, args, node)
+        if isinstance(recv, HSink):
+            if name in ("write", "append"):
+                if recv.closed:
+                    raise PyRaise(ValueError, "I/O operation on closed file", node)
+                recv.put(args[0], self, node)
+                return None
+            if name == "close":
+                recv.closed = True
+                return None
+            if name == "flush":
+                return None
+            raise Unsupported("method %s on a byte sink" % name)
         if isinstance(recv, BinStr):
             if name == "count" and args == ["1"]:
                 xe = _ie(recv.x)
@@ -2070,6 +2113,10 @@ def _m_abs(self, args, kwargs, node, f):
 @model(ord)
 def _m_ord(self, args, kwargs, node, f):
     v = args[0]
+    if isinstance(v, SChars):
+        if len(v.codes) != 1:
+            raise PyRaise(TypeError, "ord() expected a character", node)
+        return SInt(_ie(v.codes[0])) if not isinstance(v.codes[0], int) else v.codes[0]
     if isinstance(v, SSeq):
         if isinstance(v.length, int) and v.length == 1:
             return self.seq_get(v, 0, node)
@@ -2084,7 +2131,7 @@ def _m_ord(self, args, kwargs, node, f):
         raise PyRaise(TypeError, str(ex), node)
 
 
-_CHR_TABLE = [chr(i) for i in range(256)]
+from .engine import CHR_TABLE as _CHR_TABLE
 
 
 @model(chr)
@@ -2244,6 +2291,65 @@ def _m_iter_unpack(self, args, kwargs, node, f):
             out.append(b)
         return tuple(out)
     return SSeq(z3.simplify(ne / size), get, kind="list")
+
+
+@model(open)
+def _m_open(self, args, kwargs, node, f):
+    mode = args[1] if len(args) > 1 else kwargs.get("mode", "r")
+    if is_sym(mode) or not isinstance(mode, str):
+        raise Unsupported("open() with a symbolic mode")
+    if "w" in mode and "b" in mode:
+        # a file opened for binary writing is a fresh byte sink; nothing is written to the real file system
+        self.opened = getattr(self, "opened", None) or []
+        sink = HSink("file%d" % len(self.opened))
+        sink.path = args[0]
+        self.opened.append(sink)
+        return sink
+    raise Unsupported("open() in mode %r" % (mode,))
+
+
+_PACK_RANGES = {"B": (0, 255), "H": (0, 65535), "I": (0, (1 << 32) - 1), "L": (0, (1 << 32) - 1), "Q": (0, (1 << 64) - 1),
+                "b": (-128, 127), "h": (-32768, 32767), "i": (-(1 << 31), (1 << 31) - 1), "l": (-(1 << 31), (1 << 31) - 1), "q": (-(1 << 63), (1 << 63) - 1)}
+_PACK_SIZE = {"B": 1, "H": 2, "I": 4, "L": 4, "Q": 8, "b": 1, "h": 2, "i": 4, "l": 4, "q": 8}
+
+
+@model(_struct.pack)
+def _m_pack(self, args, kwargs, node, f):
+    fmt = args[0]
+    vals = list(args[1:])
+    if is_sym(fmt):
+        raise Unsupported("struct.pack with symbolic format")
+    if not any(_deep_sym(v) for v in vals):
+        try:
+            return _struct.pack(fmt, *vals)
+        except _struct.error as ex:
+            raise PyRaise(_struct.error, str(ex), node)
+    if not fmt.startswith("<"):
+        raise Unsupported("struct.pack format %r (only little-endian standard sizes are modelled)" % fmt)
+    codes = []
+    body = fmt[1:]
+    if len(body) != len(vals):
+        raise Unsupported("struct.pack format %r with repeat counts" % fmt)
+    for ch, v in zip(body, vals):
+        if ch == "c":
+            if isinstance(v, (bytes, bytearray)) and len(v) == 1:
+                codes.append(v[0])
+                continue
+            raise Unsupported("struct.pack 'c' of a non-constant")
+        if ch not in _PACK_RANGES:
+            raise Unsupported("struct.pack format character %r" % ch)
+        lo, hi = _PACK_RANGES[ch]
+        if isinstance(v, bool) or isinstance(v, SBool):
+            v = self.as_int(v, node)
+        if not isinstance(v, (int, SInt)):
+            raise PyRaise(_struct.error, "required argument is not an integer", node)
+        ve = _ie(v)
+        if not self.decide(z3.And(ve >= lo, ve <= hi)):
+            raise PyRaise(_struct.error, "argument out of range", node)
+        m = ve if lo == 0 else z3.If(ve < 0, ve + (hi - lo + 1), ve)
+        for j in range(_PACK_SIZE[ch]):
+            codes.append(z3.simplify((m / (1 << (8 * j))) % 256))
+    return SChars(codes, "bytes")
 
 
 @model(_struct.unpack)
